@@ -10,7 +10,7 @@ import os, re, sys, json, time, shutil, subprocess, hashlib
 
 VERIF = os.path.dirname(os.path.dirname(os.path.abspath(__file__)))
 REPO = os.environ.get("QUINN_REPO", "/repo")
-BUILD = os.path.join(VERIF, ".build")
+BUILD = os.environ.get("VERIF_BUILD") or os.path.join(VERIF, ".build")
 MIRDIR = os.path.join(BUILD, "mir")
 sys.path.insert(0, os.path.join(VERIF, "mir2smt"))
 import mir2smt
